@@ -129,7 +129,7 @@ def run_mc(module, cfg_text, workers=None, timeout=900, expect_violation=None, a
     rc, out, wall = tlc(d, module + ".tla", cfg, workers=workers or NCPU, timeout=timeout, xmx="8g", args=args)
     m = STAT_RE.findall(out)
     res = dict(module=module, wall_s=round(wall, 1), states=int(m[-1][0]) if m else 0, distinct=int(m[-1][1]) if m else 0)
-    violated = re.search(r"Invariant (\S+) is violated|Action property (\S+) is violated|Temporal properties were violated", out)
+    violated = re.search(r"Invariant (\S+) is violated|Action property (\S+) is violated|Temporal properties were violated|Temporal property (\S+) was violated", out)
     if expect_violation is None:
         if "Model checking completed. No error has been found." not in out:
             if violated:
